@@ -41,20 +41,26 @@ func pTypeByKind(k string) PType {
 	panic("ptype " + k)
 }
 
+// The header parameter's name is deliberately not in canonical MIME form (canonical: X-Req-Id): a wrapper that looks the
+// header up under the spelling of the document instead of the canonical key never finds it.
+const headerParamName = "X-Req-ID"
+const headerGoName = "XReqID"
+
 type PShape struct {
-	ID       int
-	Loc      string
-	Style    string // "" = unset
-	Explode  string // "" unset, "true", "false"
-	T        PType
-	Required bool
-	Mode     string // schema | json | pass
+	ID         int
+	Loc        string
+	Style      string // "" = unset
+	Explode    string // "" unset, "true", "false"
+	T          PType
+	Required   bool
+	Mode       string // schema | json | pass
+	AllowEmpty bool   // allowEmptyValue: true (query only); changes nothing about presence being required
 }
 
 func (s PShape) OpID() string { return fmt.Sprintf("P%d", s.ID) }
 func (s PShape) ParamName() string {
 	if s.Loc == "header" {
-		return "X-V"
+		return headerParamName
 	}
 	return "v"
 }
@@ -78,6 +84,9 @@ func (s PShape) EffStyle() string {
 func (s PShape) EffExplode() bool {
 	if s.Explode != "" {
 		return s.Explode == "true"
+	}
+	if s.Style == "deepObject" {
+		return true // the only row the OAS table defines for deepObject; the literal default (false) is not serialisable
 	}
 	return s.EffStyle() == "form"
 }
@@ -103,6 +112,9 @@ func (s PShape) Desc() string {
 	if s.Required {
 		req = "req"
 	}
+	if s.AllowEmpty {
+		req += "+allowEmpty"
+	}
 	return fmt.Sprintf("%s/%s/%s/%s/%s/%s", s.Loc, st, ex, s.T.Kind, req, s.Mode)
 }
 
@@ -110,6 +122,9 @@ func (s PShape) Param() J {
 	p := J{"name": s.ParamName(), "in": s.Loc}
 	if s.Required || s.Loc == "path" {
 		p["required"] = true
+	}
+	if s.AllowEmpty {
+		p["allowEmptyValue"] = true
 	}
 	switch s.Mode {
 	case "schema":
@@ -149,6 +164,19 @@ func allShapes() []PShape {
 					for _, r := range reqs {
 						add(PShape{Loc: loc, Style: st, Explode: ex, T: t, Required: r, Mode: "schema"})
 					}
+				}
+			}
+		}
+		if loc == "query" {
+			for _, k := range []string{"str", "int32", "arrI"} {
+				for _, r := range []bool{true, false} {
+					add(PShape{Loc: loc, T: pTypeByKind(k), Required: r, Mode: "schema", AllowEmpty: true})
+				}
+			}
+			// deepObject is defined for objects only; explode=false is not a row of the OAS table
+			for _, ex := range []string{"", "true"} {
+				for _, r := range []bool{true, false} {
+					add(PShape{Loc: loc, Style: "deepObject", Explode: ex, T: pTypeByKind("obj"), Required: r, Mode: "schema"})
 				}
 			}
 		}
